@@ -74,7 +74,10 @@ func init() {
 			if err != nil {
 				return "err"
 			}
-			var t2 bt.Txs
+			// the destination already holds other transactions and has room to spare: decoding replaces, never appends
+			t2 := make(bt.Txs, 2, 8)
+			t2[0], t2[1] = bt.NewTx(), bt.NewTx()
+			t2[0].LockTime, t2[1].Version = 77, 9
 			if err := json.Unmarshal(js, t2.NodeJSON()); err != nil {
 				return "err"
 			}
@@ -167,6 +170,13 @@ func init() {
 				us = append(us, &bt.UTXO{TxID: mustHex(f[0]), Vout: uint32(mustU(f[1], 32)), Satoshis: mustU(f[2], 64), LockingScript: scr(mustHex(x))})
 			}
 		}
+		// destinations that already hold other elements and have room to spare: decoding replaces, never appends
+		stale := func() bt.UTXOs {
+			l := make(bt.UTXOs, 2, 8)
+			l[0] = &bt.UTXO{TxID: make([]byte, 32), Vout: 9, Satoshis: 1, LockingScript: scr([]byte{0x51})}
+			l[1] = &bt.UTXO{TxID: make([]byte, 32), Vout: 8, Satoshis: 2, LockingScript: scr([]byte{0x52})}
+			return l
+		}
 		show := func(l bt.UTXOs) string {
 			var out []string
 			for _, u := range l {
@@ -190,7 +200,7 @@ func init() {
 			if err != nil {
 				return "err"
 			}
-			var u2 bt.UTXOs
+			u2 := stale()
 			if err := json.Unmarshal(js, &u2); err != nil {
 				return "err"
 			}
@@ -201,7 +211,7 @@ func init() {
 			if err != nil {
 				return "err"
 			}
-			var u2 bt.UTXOs
+			u2 := stale()
 			if err := json.Unmarshal(js, u2.NodeJSON()); err != nil {
 				return "err"
 			}
